@@ -282,6 +282,7 @@ func c07Undo(r *core.Run, p *core.Program) {
 		r.Fail(rule, "writer", p.Pos(cb.Pos()), "undo writer not found")
 		return
 	}
+	undoFileAlways(r, p, rule)
 	c19Order(r, p, rule, "write-then-rename", wr, []c19Ev{
 		{"write undo/tmp", func(i ssa.Instruction) bool {
 			c, ok := i.(ssa.CallInstruction)
@@ -747,4 +748,87 @@ func snapshotCountFromMaps(r *core.Run, p *core.Program, rule string) {
 	walk(counts[0])
 	sort.Strings(bad)
 	r.Check(len(bad) == 0 && nlen >= 1, rule, key, p.Pos(sv.Pos()), "the announced record count is the sum of the lengths of the set's maps", "the record count in the snapshot header is "+strings.Join(bad, ", ")+" instead of the sum of the lengths of the maps that are written")
+}
+
+// undoFileAlways: undo files are named by height only and stay on disk after a disconnect.  So the file of a
+// height must be (over)written by every block that is connected while undo data is collected - also by a
+// block that spends nothing (an empty file) - or a later disconnect at that height applies the leftover file
+// of a competing block.  The writer is started under the one condition "undo data is collected"
+// (UndoData != nil), and a disconnect whose file cannot be read stops (any read error is fatal).
+func undoFileAlways(r *core.Run, p *core.Program, rule string) {
+	cb := p.Func("lib/utxo.(*UnspentDB).CommitBlockTxs")
+	ub := p.Func("lib/utxo.(*UnspentDB).UndoBlockTxs")
+	if cb == nil || ub == nil {
+		r.Fail(rule, "undo-file-always", "-", "CommitBlockTxs / UndoBlockTxs not found")
+		return
+	}
+	// the go statement that starts the writer (a worker that writes a file)
+	bad := "the undo writer is not started from CommitBlockTxs"
+	an.Instrs(cb, func(i ssa.Instruction) {
+		g, ok := i.(*ssa.Go)
+		if !ok {
+			return
+		}
+		w := c11GoWorker(g)
+		if w == nil || len(an.CallsTo(w, true, "os.WriteFile")) == 0 {
+			return
+		}
+		bad = ""
+		n := 0
+		for _, dc := range an.DomConds(g.Block()) {
+			x, y, rel, ok := dc.Cmp()
+			if !ok {
+				bad = "the undo writer is started under a condition that is not a comparison (" + an.Anon(dc.Cond) + ")"
+				continue
+			}
+			f, _ := an.FieldOf(loadAddr(x))
+			c, isC := y.(*ssa.Const)
+			if f == "lib/utxo.BlockChanges.UndoData" && isC && c.Value == nil && rel == token.NEQ {
+				n++
+				continue
+			}
+			bad = "the undo writer is started only when " + an.Anon(dc.Cond) + " = " + fmt.Sprint(dc.True) + ": a block for which it is skipped leaves an older file of its height in place"
+		}
+		if bad == "" && n == 0 {
+			bad = "" // unconditional: fine
+		}
+	})
+	r.Check(bad == "", rule, "undo-file-always/written", p.Pos(cb.Pos()), "the undo file of a height is written by every block connected while undo data is collected", bad)
+	// the read: every error stops the disconnect
+	bad = "the undo file read was not found"
+	for _, c := range an.CallsTo(ub, false, "os.ReadFile", "io/ioutil.ReadFile") {
+		bad = "the result of reading the undo file is not tested"
+		for _, b := range ub.Blocks {
+			iff, ok := b.Instrs[len(b.Instrs)-1].(*ssa.If)
+			if !ok {
+				continue
+			}
+			x, y, rel, ok := an.CondCmp(iff.Cond)
+			if !ok {
+				continue
+			}
+			ex, isEx := x.(*ssa.Extract)
+			cn, isC := y.(*ssa.Const)
+			if !isEx || ex.Tuple != c.Value() || ex.Index != 1 || !isC || cn.Value != nil {
+				continue
+			}
+			failSucc := b.Succs[0]
+			if rel == token.EQL {
+				failSucc = b.Succs[1]
+			}
+			// the error side must stop: a panic (or exit) in that block, with nothing else deciding
+			stops := false
+			for _, ins := range failSucc.Instrs {
+				if _, isP := ins.(*ssa.Panic); isP {
+					stops = true
+				}
+			}
+			if stops {
+				bad = ""
+			} else {
+				bad = "a failed read of the undo file does not stop the disconnect unconditionally (the error side at " + p.Pos(blockPos(failSucc)) + " goes on): with a missing file nothing is restored"
+			}
+		}
+	}
+	r.Check(bad == "", rule, "undo-file-always/read-error-fatal", p.Pos(ub.Pos()), "an unreadable undo file stops the disconnect", bad)
 }
